@@ -288,3 +288,10 @@ pub mod x86_64 {
         crate::elf_x86_64::verif_new_relaxation(r_type, bytes, offset, flag_bits, output_kind, exec, addend)
     }
 }
+
+pub mod elf {
+    /// See `crate::elf::verif_allocate_resolution`.
+    pub fn allocate_resolution(flag_bits: u16, output_kind: u8, relr: bool) -> [u64; 6] {
+        crate::elf::verif_allocate_resolution(flag_bits, output_kind, relr)
+    }
+}
